@@ -557,6 +557,51 @@ def check_gc(case):
     return out
 
 
+class SendOverridePort(ports_mod.BaseOutput):
+    """Output port written the way mido's own rtmidi backend writes it: send() itself is overridden (to bypass the
+    lock), _send() is the inherited no-op."""
+    _locking = False
+
+    def _open(self, **kwargs):
+        self.calls = []
+
+    def send(self, msg):
+        if self.closed:
+            raise ValueError('send() called on closed port')
+        self.calls.append(('send', msg.bytes()))
+
+    def _close(self):
+        self.calls.append(('close',))
+
+
+def check_sendoverride(case):
+    out = []
+    port = SendOverridePort('o', autoreset=case.get('autoreset', False))
+    calls = port.calls
+    want = []
+    for op in case['ops']:
+        if op == 'send':
+            if port.closed:
+                continue
+            port.send(note(7))
+            want.append(('send', note(7).bytes()))
+        elif op in ('reset', 'panic'):
+            if not port.closed:
+                want += [('send', b) for b in (RESET_REF if op == 'reset' else PANIC_REF)]
+            getattr(port, op)()
+        elif op == 'close':
+            was_open = not port.closed
+            port.close()
+            if was_open:
+                if case.get('autoreset'):
+                    want += [('send', b) for b in RESET_REF]
+                want.append(('close',))
+    if calls != want:
+        out.append(fail('send-override-port', f'{case}: device saw {len(calls)} calls {calls[-3:]}, expected {len(want)} '
+                                              f'{want[-3:]}'))
+    return out
+
+
 def check_volume(case):
     n = case['n']
     out = []
@@ -606,6 +651,8 @@ def run_case(case):
         return check_gc(case)
     if case['kind'] == 'volume':
         return check_volume(case)
+    if case['kind'] == 'sendoverride':
+        return check_sendoverride(case)
     if case['kind'] in ('server', 'brokenpipe'):
         # a PortServer (MultiPort over accepted socket ports): blocking receive with a message waiting in a sub-port
         from checks import c18_sockets as C18
@@ -624,7 +671,7 @@ def run_case(case):
 
 
 def nontrivial(case):
-    if case['kind'] in ('gc', 'volume'):
+    if case['kind'] in ('gc', 'volume', 'sendoverride'):
         return True
     if case['kind'] in ('server', 'brokenpipe'):
         return True
@@ -781,10 +828,16 @@ def main(ctx):
                 for wrap in (False, True):
                     ctx.check({'kind': 'gc', 'autoreset': ar, 'sends': sends, 'close_first': close_first, 'wrap': wrap},
                               sample=False)
+    for ar in (False, True):
+        for ops in (['close'], ['send', 'close', 'close'], ['reset', 'close'], ['panic', 'send', 'reset', 'close'],
+                    ['close', 'reset', 'panic', 'close']):
+            ctx.check({'kind': 'sendoverride', 'autoreset': ar, 'ops': ops}, sample=False)
     for port in ('echo', 'device', 'multi'):
         for how in ('iter_pending', 'poll', 'receive'):
             ctx.check({'kind': 'volume', 'port': port, 'n': 5000, 'how': how}, sample=False)
     ctx.check({'kind': 'volume', 'port': 'multi', 'n': 3000, 'how': 'receive', 'yield_ports': True}, sample=False)
+    ctx.check({'kind': 'volume', 'port': 'echo', 'n': 140000, 'how': 'iter_pending'}, sample=False)
+    ctx.check({'kind': 'volume', 'port': 'device', 'n': 70000, 'how': 'poll'}, sample=False)
     for case in C18.brokenpipe_cases():
         ctx.check(case, classes=('socket-port-broken-pipe-in-send',), sample=False)
     ctx.pmap('enum_failing_reset', [0])
